@@ -234,22 +234,43 @@ def argument(e):
     return operand(e)
 
 
+SPACING = "normal"
+
+
 def infix(e):
-    """top-level infix spelling: left-nested chains without parentheses"""
+    """top-level infix spelling: left-nested chains without parentheses.  SPACING chooses the layout around symbolic operators:
+    normal `a - b`; signlike `a -b` (only before an operand that starts with a letter or `(`: `a -1` is the literal -1 by the
+    lexer's own rule); tightleft `a- b`; wide `a   -   b`; newline: operator at the start of the next line"""
     if e[0] == "bin":
         left = e[2]
         ls = infix(left) if left[0] == "bin" else operand(left)
-        return "%s %s %s" % (ls, e[1], operand(e[3]))
+        rs = operand(e[3])
+        op = e[1]
+        if SPACING != "normal" and not op[0].isalpha():
+            if SPACING == "signlike" and (rs[0].isalpha() or rs[0] == "("):
+                return "%s %s%s" % (ls, op, rs)
+            if SPACING == "tightleft":
+                return "%s%s %s" % (ls, op, rs)
+            if SPACING == "wide":
+                return "%s   %s   %s" % (ls, op, rs)
+            if SPACING == "newline":
+                return "%s\n        %s %s" % (ls, op, rs)
+        return "%s %s %s" % (ls, op, rs)
     return operand(e)
 
 
-def program(exprs, style, bind=True):
+def program(exprs, style, bind=True, spacing="normal"):
     """exprs: list of (tree); style 'prefix' | 'infix'; bind=False prints each value without a local (the code
     generator has 256 local slots per function)"""
     L = [PRELUDE, MAIN_HEAD]
     for i, e in enumerate(exprs):
         t = ty_of(e)
-        txt = prefix(e) if style == "prefix" else infix(e)
+        global SPACING
+        SPACING = spacing
+        try:
+            txt = prefix(e) if style == "prefix" else infix(e)
+        finally:
+            SPACING = "normal"
         if bind:
             L.append("    let r%d: %s = %s\n    (println r%d)\n" % (i, t, txt, i))
         else:
